@@ -468,8 +468,8 @@ func c02CheckWF(w *c02WF) {
 func VerifC02Workflow() {
 	w := &c02WF{nodes: []string{"a", "b", "c", "d"}, deps: map[string][]c02Dep{
 		"a": {{START, "s", 0}},
-		"b": {{"a", "a", 1}},                 // branch target, data from a without direct dependency
-		"c": {{"a", "a", 1}},                 // branch target
+		"b": {{"a", "a", 1}},                // branch target, data from a without direct dependency
+		"c": {{"a", "a", 1}},                // branch target
 		"d": {{"b", "b", 0}, {"c", "c", 0}}, // joins both branch targets
 		END: {{"d", "d", 0}},
 	}, branches: []vBranch{{"a", []string{"b", "c"}}}}
